@@ -206,22 +206,20 @@ def ensure(cfg, runner=True, fuzz_targets=()):
 
 
 def ensure_fuzz(cfg, target):
-    """Link a libFuzzer target engine/fuzz/<target>.c against cfg's library + shim."""
-    c = CONFIGS[cfg]
-    ensure(cfg, runner=True)
+    """Link a libFuzzer target engine/fuzz/<target>.c against cfg's library (built with fuzzer-no-link coverage)."""
+    ensure(cfg, runner=False)
     d = bdir(cfg)
     lib = glob.glob(os.path.join(d, "lib", "librelic_s*.a"))
     src = os.path.join(VERIF, "engine", "fuzz", target + ".c")
     exe = os.path.join(d, "fz_" + target)
-    shim = sorted(glob.glob(os.path.join(VERIF, "engine", "shim", "*.c")))
-    deps = [src] + shim + lib + glob.glob(os.path.join(VERIF, "engine", "shim", "*.h"))
+    deps = [src] + lib
     if os.path.exists(exe) and os.path.getmtime(exe) >= max(os.path.getmtime(p) for p in deps):
         return exe
     incs = ["-I" + os.path.join(d, "include"), "-I" + os.path.join(REPO, "include"),
             "-I" + os.path.join(REPO, "include", "low"), "-I" + os.path.join(REPO, "src", "tmpl"),
             "-I" + os.path.join(VERIF, "engine", "shim")]
     flags = (COMMON + " " + SAN + " -fsanitize=fuzzer").split()
-    cmd = ["clang"] + flags + ["-D_GNU_SOURCE", "-DVS_FUZZ", "-Wno-unused-function", src] + shim + lib + incs + \
+    cmd = ["clang"] + flags + ["-D_GNU_SOURCE", "-DVS_FUZZ", "-Wno-unused-function", src] + lib + incs + \
         ["-lm", "-lpthread", "-o", exe]
     rc, out = _run(cmd, log=os.path.join(d, "build.log"))
     if rc != 0:
